@@ -886,6 +886,21 @@ impl<R: BufRead + Seek> WebPDecoder<R> {
     }
 }
 
+/// Verification hook (compiled only with `--cfg image_webp_verif`): read-only view of the private chunk table.
+#[cfg(image_webp_verif)]
+impl<R> WebPDecoder<R> {
+    /// `(fourcc, range.start, range.end)` of every registered chunk, sorted, and `animation.next_frame_start`.
+    pub fn verif_chunk_table(&self) -> (Vec<([u8; 4], u64, u64)>, u64) {
+        let mut v: Vec<([u8; 4], u64, u64)> = self
+            .chunks
+            .iter()
+            .map(|(k, r)| (k.to_fourcc(), r.start, r.end))
+            .collect();
+        v.sort();
+        (v, self.animation.next_frame_start)
+    }
+}
+
 pub(crate) fn range_reader<R: BufRead + Seek>(
     mut r: R,
     range: Range<u64>,
